@@ -118,8 +118,10 @@ func (cr *clRun) issueAdmin(i int, op Op) {
 			newSize = blk
 		}
 		a.arg = fmt.Sprint(newSize)
-		if newSize <= cr.m.size && cr.allRW() && cr.idleIO() {
-			pre = cr.allDigests() // only judged when nothing else can touch the directories
+		if newSize <= cr.m.size && cr.allRW() && cr.idleIO() && c.punchLag == 0 {
+			// only judged when nothing else can touch the directories (a lagging background
+			// puncher may still be working through its queue and changes the image files)
+			pre = cr.allDigests()
 		}
 	case "snap":
 		a.arg = fmt.Sprintf("u%d", op.A)
